@@ -37,12 +37,13 @@ def gen_cases(tier, seed):
                           "data": ["grid", "dups", "const", None][i % 4]})
     # forced tie regimes: cold start / duplicated rows, for every candidate mode the strategy supports
     for name, e in POOL.items():
-        for j, (cm, lab, dat) in enumerate([("feat", "cold", None), ("idx", "cold", "dups"), ("none", "half", "dups"), ("feat", "one", "grid")]):
+        for j, (cm, lab, dat, bat) in enumerate([("feat", "cold", None, None), ("idx", "cold", "dups", None), ("none", "half", "dups", "exact"),
+                                                 ("feat", "one", "grid", None), ("none", "half", "normal", "exact"), ("none", "random", None, "over")]):
             if cm == "feat" and not e.feat:
                 continue
             cases.append({"family": "pool", "entry": name, "seed": stable_hash(seed, "C06", "forced", name, j), "wrap": "none", "prefit": False,
-                          "weights": False, "nq": 1, "nmax": 10 if tier == "quick" else 18, "rs": "int", "data": dat, "cmode_forced": cm,
-                          "labels": lab})
+                          "weights": False, "nq": 1, "nmax": 12 if tier == "quick" else 18, "rs": "int", "data": dat, "cmode_forced": cm,
+                          "labels": lab, "batch": bat})
     for i in range(reps * 3):
         cases.append({"family": "pool", "entry": "IntervalEstimationThreshold", "seed": stable_hash(seed, "C06", "iet", i), "wrap": "iet",
                       "prefit": False, "weights": False, "nq": 1, "nmax": 10, "rs": "int", "data": None})
